@@ -136,3 +136,4 @@ impl IntoRawFd for OwnedFd {
 pub open spec fn creation_flags(bits: i32) -> bool { bits & (libc::O_CREAT | libc::O_EXCL) != 0 || bits & libc::O_TMPFILE == libc::O_TMPFILE }
 /// the link body was read (readlinkat(fd, "")) from a descriptor that passed the procfs checks
 pub open spec fn exists_procfs_link(body: Seq<u8>) -> bool { exists|l: int| (#[trigger] link_body_of(l, body)) && is_procfs(l) }
+pub uninterp spec fn requested_flags_of(fd: int) -> i32;   // open flags a reopen / procfs open was asked for
